@@ -128,6 +128,36 @@ impl EntryTrait for IndexEntry {
 }
 
 impl IndexEntry {
+    /// Check that field values decoded from an index are within the ranges that the
+    /// rest of the code relies on, so that a damaged index is reported as an error
+    /// rather than causing a panic later.
+    pub(crate) fn check(&self) -> std::result::Result<(), String> {
+        let apath = &self.apath;
+        if !Apath::is_valid(apath) {
+            return Err(format!("invalid apath {apath:?}"));
+        }
+        let nanos_ok = i32::try_from(self.mtime_nanos)
+            .is_ok_and(|nanos| nanos < 1_000_000_000 && Timestamp::new(self.mtime, nanos).is_ok());
+        if !nanos_ok {
+            return Err(format!("invalid mtime on {apath:?}"));
+        }
+        if self.kind == Kind::Unknown {
+            return Err(format!("unknown kind on {apath:?}"));
+        }
+        if (self.kind == Kind::Symlink) != self.target.is_some() {
+            return Err(format!("symlink target inconsistent with kind on {apath:?}"));
+        }
+        let mut total: u64 = 0;
+        for addr in &self.addrs {
+            let end = addr.start.checked_add(addr.len);
+            total = match (end, total.checked_add(addr.len)) {
+                (Some(_), Some(total)) => total,
+                _ => return Err(format!("address out of range on {apath:?}")),
+            };
+        }
+        Ok(())
+    }
+
     /// Copy the metadata, but not the body content, from another entry.
     ///
     /// The result has no blocks.
